@@ -35,7 +35,6 @@ NOT_MODELLED = "all back ends of cpu_list are only explored here, deterministic 
 A0 = 0x1000
 TAIL = "00112233445566778899aabbccdd"
 HERE = os.path.dirname(os.path.dirname(os.path.abspath(__file__)))
-CRASH_CAP = 8      # crashing prefixes located per CPU before the search stops (each costs a process restart)
 
 
 # ---------------------------------------------------------------------------------------------
@@ -367,40 +366,51 @@ def c07_oracle(ctx, orc):
 # ---------------------------------------------------------------------------------------------
 # C08
 # ---------------------------------------------------------------------------------------------
+# The longest instruction of every back end in BYTES, written by hand from the instruction-set definitions (and, for
+# the back ends that implement only part of an ISA, from the longest form the back end encodes); it is NOT derived
+# from what the disassembler returns.  Family members share the entry of their disassembler.
+MAXLEN = {
+    "1802": 3, "4004": 2, "6502": 3, "65816": 4, "65832": 4, "6800": 3, "68000": 10, "6809": 5, "68hc08": 4, "8008": 3,
+    "8041": 2, "8048": 2, "8051": 3, "86000": 3, "agc": 4, "arc": 8, "arm": 4, "arm64": 4, "avr8": 4, "cell": 4,
+    "copper": 4, "cp1610": 6, "dotnet": 9, "dspic": 8, "pic24": 8, "ebpf": 16, "epiphany": 4, "f100_l": 6, "f8": 3,
+    "java": 6, "lc3": 2, "m8c": 3, "mips": 4, "mips32": 4, "n64_rsp": 4, "pic32": 4, "ps2_ee": 4, "msp430": 6,
+    "msp430x": 8, "pdk13": 2, "pdk14": 2, "pdk15": 2, "pdk16": 2, "pdp11": 6, "pdp8": 2, "pic14": 2, "pic18": 4,
+    "powerpc": 4, "propeller": 4, "propeller2": 4, "ps2_ee_vu0": 4, "ps2_ee_vu1": 4, "riscv": 4, "riscv64": 4,
+    "sh4": 2, "sparc": 4, "stm8": 5, "super_fx": 4, "sweet16": 3, "thumb": 4, "tms1000": 1, "tms1100": 1,
+    "tms340": 10, "tms9900": 6, "unsp": 4, "webasm": 11, "xtensa": 3, "z80": 4,
+}
+
+
 def maxlen_table():
-    return json.load(open(os.path.join(HERE, "tools", "sweep_maxlen.json")))
+    return MAXLEN
 
 
-def disxb_all(ctx, cpus, addr, off=0, chunk=4096):
+def disxb_all(ctx, cpus, addr, off=0, tail=TAIL, chunk=4096):
     """every 16-bit pattern at byte offset `off` of the instruction, for the named CPUs.
-    returns {cpu: {"bad": {kind: {pattern: len}}, "max": n, "n": count, "lens": histogram}}"""
-    res = {c: {"bad": collections.defaultdict(dict), "max": 0, "n": 0, "lens": collections.Counter()} for c, _ in cpus}
+    returns {cpu: {"bad": {kind: {pattern: len}}, "max": n, "n": count, "lens": histogram, "unexplored": n}}
+    (the harness survives a crashing decoder: kinds crash/hang; after 8 crashes in a chunk of 4096 patterns the rest
+    of the chunk is counted as unexplored)"""
+    res = {c: {"bad": collections.defaultdict(dict), "max": 0, "n": 0, "lens": collections.Counter(), "unexplored": 0,
+               "died": []} for c, _ in cpus}
     work = [(c, fr, fr + chunk) for c, _ in cpus for fr in range(0, 65536, chunk)]
-    while work:
-        ans = ctx.impl(["disxb %s %x %s %d %d %d" % (c, addr, TAIL, fr, to, off) for c, fr, to in work])
-        nxt = []
-        for (c, fr, to), a in zip(work, ans):
-            if not a.startswith("n="):
-                if len(res[c]["bad"]["crash"]) >= CRASH_CAP:
-                    res[c]["unexplored"] = res[c].get("unexplored", 0) + (to - fr)   # enough crashes to report
-                elif to - fr == 1:
-                    res[c]["bad"]["crash"][fr] = a[:120]
-                    res[c]["n"] += 1
-                else:
-                    mid = (fr + to) // 2
-                    nxt += [(c, fr, mid), (c, mid, to)]
-                continue
-            d = dict(x.split("=", 1) for x in a.split())
-            res[c]["n"] += int(d["n"])
-            res[c]["max"] = max(res[c]["max"], int(d["max"]))
-            if d["bad"] != "-":
-                for b in d["bad"].split(";"):
-                    p, k, l = b.split(":")
-                    res[c]["bad"][k][int(p, 16)] = int(l)
+    ans = ctx.impl(["disxb %s %x %s %d %d %d" % (c, addr, tail, fr, to, off) for c, fr, to in work])
+    for (c, fr, to), a in zip(work, ans):
+        if not a.startswith("n="):
+            res[c]["died"].append((fr, to, a[:160]))      # the harness itself died (not the forked worker)
+            res[c]["unexplored"] += to - fr
+            continue
+        d = dict(x.split("=", 1) for x in a.split())
+        res[c]["n"] += int(d["n"])
+        res[c]["max"] = max(res[c]["max"], int(d["max"]))
+        res[c]["unexplored"] += int(d["unexplored"])
+        if d["bad"] != "-":
+            for b in d["bad"].split(";"):
+                p, k, l = b.split(":")
+                res[c]["bad"][k][int(p, 16)] = int(l)
+        if d["lens"] != "-":
             for x in d["lens"].split(","):
                 l, n = x.split(":")
                 res[c]["lens"][int(l)] += int(n)
-        work = nxt
     return res
 
 
@@ -417,17 +427,27 @@ def c08_correspondence(ctx, corr):
     return
 
 
-# Offsets of the swept 16-bit pattern inside the instruction: 0 for every CPU; 2 as well (the upper half-word of a
-# little-endian 32-bit word, where those ISAs keep their opcode bits) for every CPU whose instructions reach 4 bytes.
-def sweep_offsets(maxlen, c):
-    return [0, 2] if maxlen.get(c, 0) >= 4 else [0]
+# Input sets of the single-instruction sweep: (tag, load address, tail bytes, offset of the swept 16-bit pattern).
+# Offset 0 for every CPU; offset 2 as well (the upper half-word of a little-endian 32-bit word, where those ISAs keep
+# their opcode bits) for every CPU whose instructions reach 4 bytes.  The thorough tier adds a second tail (operand
+# bytes that select the long forms: 0x89 = 6809 16-bit offset post byte, 0xff/0x80 sign boundaries) and a second load
+# address (2 bytes below 64 KiB).  Fixed lists: quick is a prefix of thorough, nothing depends on the seed.
+TAIL2 = "89ff80017fc3e55a0ff01e2d3c4b"
+A1 = 0xfffe
+
+
+def c08_configs(thorough):
+    cfg = [("", A0, TAIL, 0), ("@2", A0, TAIL, 2)]
+    if thorough:
+        cfg += [("@t2", A0, TAIL2, 0), ("@a2", A1, TAIL, 0), ("@t2a2o2", A1, TAIL2, 2)]
+    return cfg
 
 
 WALK_BLOCKS = [(0x1000, 192), (0xff40, 256), (0x20000 - 64, 96)]
 KIND_TEXT = {"short": "length >= one address unit",
              "nonlocal": "text and length independent of the bytes after the instruction",
              "nonul": "NUL-terminated text inside the 128-byte buffer",
-             "crash": "the disassembler returns"}
+             "crash": "the disassembler returns", "hang": "the disassembler returns within 20 s"}
 
 
 def leb_signed32(blk, pos):
@@ -495,36 +515,46 @@ def c08_oracle(ctx, orc):
     known = known_members("C08")
     stats = {"cpus": len(cpus), "patterns_per_cpu_and_offset": 65536, "instructions": 0, "bad_by_kind": collections.Counter()}
     skip_walk = set()
-    for off in (0, 2):
-        sel = [(c, b) for c, b in cpus if off in sweep_offsets(maxlen, c)]
-        res = disxb_all(ctx, sel, A0, off)
-        tag = "" if off == 0 else "@%d" % off
-        stats["cpus_offset_%d" % off] = len(sel)
+    full = {}       # sig -> {pattern: length}: complete member sets (tools/sweep_regen.py writes them down)
+    for tag, addr, tail, off in c08_configs(not ctx.quick()):
+        sel = [(c, b) for c, b in cpus if off == 0 or maxlen.get(c, 0) >= 4]
+        res = disxb_all(ctx, sel, addr, off, tail)
+        stats["cpus_in_set_%s" % (tag or "base")] = len(sel)
         for c, bpa in sel:
             r = res[c]
             orc["cases"] += r["n"]
             stats["instructions"] += r["n"]
             if r["max"] > maxlen.get(c, 0):
-                orc["failures"].append({"sig": "C08:sweep:%s:toolong%s:%d" % (c, tag, r["max"]), "input": ".%s all 16-bit patterns at offset %d" % (c, off),
+                orc["failures"].append({"sig": "C08:sweep:%s:toolong%s:%d" % (c, tag, r["max"]),
+                                        "input": ".%s all 16-bit patterns at offset %d, tail %s, address 0x%x" % (c, off, tail, addr),
                                         "expected": "length <= %d (the CPU's longest instruction)" % maxlen.get(c, 0),
                                         "observed": "length %d" % r["max"], "what": "instruction length above the CPU's maximum"})
+            if r["unexplored"]:
+                orc["failures"].append({"sig": "C08:sweep:%s:unexplored%s" % (c, tag),
+                                        "input": ".%s 16-bit patterns at offset %d, tail %s, address 0x%x" % (c, off, tail, addr),
+                                        "expected": "every pattern is disassembled",
+                                        "observed": "%d patterns not reached: more than 8 crashes per 4096 patterns%s" % (
+                                            r["unexplored"], "; harness died: %s" % (r["died"][:2],) if r["died"] else ""),
+                                        "what": "the disassembler crashes on so many patterns that the sweep gave up"})
             for kind, members in r["bad"].items():
                 stats["bad_by_kind"][kind] += len(members)
-                if kind in ("short", "crash"):
+                if kind in ("short", "crash", "hang"):
                     skip_walk.add(c)
                 sig = "C08:sweep:%s:%s%s" % (c, kind, tag)
+                full[sig] = dict(members)
                 new = sorted(set(members) - known.get(sig, set()))
                 if len(new) < len(members):
                     orc["failures"].append({"sig": sig, "input": ".%s patterns %s" % (c, set_to_ranges(set(members) - set(new))[:300]),
                                             "expected": KIND_TEXT.get(kind, kind), "observed": kind, "what": "known class"})
                 for p in new[:8]:
-                    b = bytes.fromhex(TAIL)
+                    b = bytes.fromhex(tail)
                     b = b[:off] + bytes([p >> 8, p & 0xff]) + b[off:]
                     orc["failures"].append({
-                        "sig": "%s:%04x" % (sig, p), "input": ".%s bytes %s at 0x%x" % (c, b.hex(), A0),
+                        "sig": "%s:%04x" % (sig, p), "input": ".%s bytes %s at 0x%x" % (c, b.hex(), addr),
                         "expected": KIND_TEXT.get(kind, kind) + (" (%d)" % bpa if kind == "short" else ""),
                         "observed": "%s (%s)" % (kind, members[p]), "what": "single-instruction disassembly: " + kind,
-                        "replay_line": "disx %s %x %s" % (c, A0, b.hex())})
+                        "replay_line": "disx %s %x %s" % (c, addr, b.hex())})
+    orc["_c08_members"] = full
     # (b) range walk: the address column is the chain start, start + line, ... up to the end
     wl, wm = [], []
     for c, bpa in cpus:
@@ -544,6 +574,8 @@ def c08_oracle(ctx, orc):
     lens = collections.defaultdict(dict)
     for (c, start, ad), a in zip(dm, da):
         p = a.split()
+        if len(p) == 2 and p[0] == "nonul":
+            p = p[1:]               # the missing NUL is reported by the single-instruction sweep; the length stands
         lens[(c, start)][ad] = int(p[0]) if p and p[0].lstrip("-").isdigit() else None
     walks = 0
     for (c, bpa, start, blk), a in zip(wm, wa):
